@@ -168,6 +168,10 @@ func runC15(ctx *Ctx) *Report {
 		}
 		pairs = append(pairs, pairCase{Kind: "spell-pair", Forest: encForest(f), S1: s1, S2: s2, Fmt: allFormats()[k%len(allFormats())], Exts: extLists[k%len(extLists)]})
 	}
+	for bi, name := range []string{"deep", "wide", "many-roots"} {
+		f := bigShapes()[name]
+		pairs = append(pairs, pairCase{Kind: "spell-pair", Forest: encForest(f), S1: sps[(3*bi+1)%len(sps)], S2: sps[(5*bi+6)%len(sps)], Fmt: allFormats()[bi%len(allFormats())], Exts: extLists[1], WithFS: true})
+	}
 	// many roots: in the massive mode the blocks of one document are parsed concurrently, in every spelling alike
 	{
 		var many []*Tree
